@@ -46,6 +46,8 @@ def match_known(prop, cls, msg, extra=None):
             continue
         if e.get("cls") and e["cls"] != cls:
             continue
+        if e.get("cls_prefix") and not (cls or "").startswith(e["cls_prefix"]):
+            continue
         if e.get("msg_contains") and e["msg_contains"] not in (msg or ""):
             continue
         if e.get("input_contains") and e["input_contains"] not in (extra or ""):
